@@ -160,8 +160,11 @@ class AnsiDecoder:
                 iter_codes = iter(codes)
                 for code in iter_codes:
                     if code == 0:
-                        # reset
+                        # reset (a hyperlink is not an SGR attribute, it stays open)
+                        link = self.style.link
                         self.style = _Style.null()
+                        if link:
+                            self.style = self.style.update_link(link)
                     elif code in SGR_STYLE_MAP:
                         # styles
                         self.style += _Style.parse(SGR_STYLE_MAP[code])
